@@ -144,6 +144,7 @@ def step (st : St) (toks : List String) : Option (St × String × String) :=
           else if !subset present upper then "VIOL(outside-depth-bound)"
           else "ok"
       some (st, "ok", sp)
+  | "freshlayout" :: _ => some (st, "complete", "complete")   -- runtime monitor: concurrent write, reopen, copy again
   | "literalfilter" :: rest => do
       -- a plain-string pattern is a regular expression all the same: the referrers whose type
       -- contains it are the ones followed (the harness lists them from the types it pushed)
